@@ -478,6 +478,7 @@ func (s *UDPSessionRelay) recvFromServerConnGeneric(ctx context.Context, lnc *ud
 
 		select {
 		case entry.natConnSendCh <- queuedPacket:
+			verifhook.At("relay.recv.enqueued", s, csid)
 		default:
 			if ce := lnc.logger.Check(zap.DebugLevel, "Dropping packet due to full send channel"); ce != nil {
 				ce.Write(
